@@ -84,6 +84,7 @@ def build(S, tier, seed):
     trashdirs.restore_dirs_vc(S)
     restore.restore_one_vc(S)
     restore.sort_vc(S)
+    S.verify(restore.ScopeMatch())
     restore.pipeline_vc(S)
     options.restore_options_vc(S)
     options.put_options_vc(S)
@@ -181,7 +182,9 @@ def roundtrip_battery(repo, seed=0):
 
 
 def _battery(S, r, o):
-    return roundtrip_battery(S.interp.repo)
+    return scenarios.merge_batteries(
+        roundtrip_battery(S.interp.repo),
+        scenarios.put_xdev_battery(S.interp.repo, 'restore'))
 
 
 REPLAYERS = dict(c03.REPLAYERS)
